@@ -149,6 +149,8 @@ def hs_server_hello(rng):
 def hs_certificate(rng):
     from cryptoparser.tls.subprotocol import TlsHandshakeCertificate, TlsCertificates, TlsCertificate
     certs = [TlsCertificate(rbytes(rng, rsize(rng, big=rng.random() < 0.1))) for _ in range(rng.choice((1, 1, 2, 3, 6)))]
+    if rng.random() < 0.03:
+        certs.append(TlsCertificate(rbytes(rng, rng.choice((2 ** 16, 70000)))))   # 24-bit lengths above 64 KiB
     return TlsHandshakeCertificate(TlsCertificates(certs))
 
 
@@ -382,6 +384,9 @@ def make_mysql(rng):
         payload = rng.choice(pools().mysql_payloads)
     else:
         payload = rbytes(rng, rsize(rng, big=True))
+        if rng.random() < 0.04:
+            # the third octet of the 24-bit little-endian length is non-zero only from 64 KiB on
+            payload = rbytes(rng, rng.choice((2 ** 16, 2 ** 16 + 1, 70000, 2 ** 17 + 3)))
     return bytes(MySQLRecord(rng.randrange(256), payload).compose())
 
 
